@@ -120,7 +120,7 @@ for p in props:
             "evidence_file": f"/verif/evidence/{i}.json",
             "replay_cmd_template": f"./check {i} --replay {{path}}",
             "engine": "vcheck",
-            "level_claimed": {"category": cat, "text": text + " Seven rounds of independently seeded changes added further workload classes and oracle clauses to this check; the rule text in the evidence file and DESIGN.md §4.0 list them.", "design_ref": ref},
+            "level_claimed": {"category": cat, "text": text + " Eight rounds of independently seeded changes added further workload classes and oracle clauses to this check; the rule text in the evidence file and DESIGN.md §4.0 list them.", "design_ref": ref},
             "level_note": note,
             "technique": tech,
         })
